@@ -174,3 +174,30 @@ theorem u8_forall {p : UInt8 → Prop} [DecidablePred p]
   simpa using this
 
 end DyntplV
+
+namespace DyntplV
+
+/-- `i`-th hex digit (lower case) of `r`, counted from the least significant. -/
+def hexDigitAt (r i : Nat) : UInt8 := hexLo (UInt8.ofNat (r / 16 ^ i % 16))
+
+/-- Lower-case hex text without leading zeros, closed form for values below 2^24
+    (every rune is below 0x110000).  Go: `strconv.AppendInt(dst, int64(r), 16)`. -/
+def hexLoRune (r : Nat) : Bytes :=
+  if r < 0x10 then [hexDigitAt r 0]
+  else if r < 0x100 then [hexDigitAt r 1, hexDigitAt r 0]
+  else if r < 0x1000 then [hexDigitAt r 2, hexDigitAt r 1, hexDigitAt r 0]
+  else if r < 0x10000 then [hexDigitAt r 3, hexDigitAt r 2, hexDigitAt r 1, hexDigitAt r 0]
+  else if r < 0x100000 then [hexDigitAt r 4, hexDigitAt r 3, hexDigitAt r 2, hexDigitAt r 1, hexDigitAt r 0]
+  else [hexDigitAt r 5, hexDigitAt r 4, hexDigitAt r 3, hexDigitAt r 2, hexDigitAt r 1, hexDigitAt r 0]
+
+/-- Value of a run of hex digits (either case); non-hex bytes count as 0 (callers check first). -/
+def hexVal (b : Bytes) : Nat := b.foldl (fun acc c => acc * 16 + ((unhex c).getD 0).toNat) 0
+def decVal (b : Bytes) : Nat := b.foldl (fun acc c => acc * 10 + (c.toNat - 48)) 0
+
+/-- `stripPrefix p b` = the rest of `b` after the prefix `p`, if `b` starts with `p`. -/
+def stripPrefix : Bytes → Bytes → Option Bytes
+  | [], b => some b
+  | _ :: _, [] => none
+  | p :: ps, c :: cs => if p == c then stripPrefix ps cs else none
+
+end DyntplV
